@@ -1,3 +1,3 @@
 import Gozod.Drv.Loop
-import Gozod.Drv.C10
-def main : IO Unit := Gozod.Drv.runLines Gozod.Drv.C10.handleLine
+import Gozod.Drv.C10U
+def main : IO Unit := Gozod.Drv.runLines Gozod.Drv.C10U.handleAny
